@@ -12,18 +12,18 @@ import (
 // rewardStep: the F-world generator with fee-paying consumer txs, transfer relays, and allow-listing of the
 // consumers' voucher denoms (by the owner or globally by governance).
 func rewardStep() func(t *rapid.T, w *world.World) world.Action {
-	base := fStep(FProfile{MaxConsumers: 2, Weights: map[string]int{"fee": 14, "cblock": 16, "relay": 18, "staking": 5, "vmsg": 5, "pblock": 12}})
+	base := fStep(FProfile{MaxConsumers: 2, TwoConsumerPrelude: 60, Weights: map[string]int{"fee": 14, "cblock": 16, "relay": 18, "staking": 5, "vmsg": 5, "pblock": 12}})
 	return func(t *rapid.T, w *world.World) world.Action {
 		f := w.F()
-		if len(w.Agenda) == 0 && len(f.Order) > 0 && rapid.IntRange(0, 99).Draw(t, "allow?") < 6 {
+		if len(w.Agenda) == 0 && len(f.Order) > 0 && rapid.IntRange(0, 99).Draw(t, "allow?") < 10 {
 			id := rapid.SampledFrom(f.Order).Draw(t, "allowchain")
 			// mostly the consumer's own voucher denom, sometimes the one of another consumer
 			src := id
-			if rapid.IntRange(0, 3).Draw(t, "foreign-denom") == 0 {
+			if len(f.Order) > 1 && rapid.IntRange(0, 1).Draw(t, "foreign-denom") == 0 {
 				src = rapid.SampledFrom(f.Order).Draw(t, "denomchain")
 			}
 			if denom := w.ProviderVoucherDenom(src, "stake"); denom != "" {
-				if rapid.IntRange(0, 3).Draw(t, "global") == 0 && !w.Busy(world.GovProposer) {
+				if rapid.IntRange(0, 7).Draw(t, "global") == 0 && !w.Busy(world.GovProposer) {
 					return world.Action{Kind: world.KGovRewardDenoms, Sender: "gov", Denoms: []string{denom}}
 				}
 				owner := w.OwnerName(w.ObserveConsumer(id).Owner)
